@@ -18,16 +18,16 @@ NMAX = {"quick": 3, "thorough": 4}
 BUDGET = {"quick": 900, "thorough": 3400}
 
 DATA_CARRIERS = ("nd_f8", "list_nan", "list_none", "list_mixed", "tuple_nan", "tuple_none", "nd_f4", "nd_i4", "nd_i8", "nd_f8_nc",
-                 "ma_nan", "ma_adv", "ma_nomask", "series", "series_shift", "series_none", "dask")
+                 "ma_nan", "ma_adv", "ma_nomask", "ma_i8", "series", "series_shift", "series_none", "dask")
 TIME_CARRIERS = ("dt64ns", "dt64us", "dt64ms", "dt64s", "list_datetime", "list_timestamp", "list_dt64", "dtindex", "dtindex_utc",
                  "series_naive", "series_utc", "series_shift_naive", "epoch_int_list", "epoch_float_list", "epoch_int_nd", "epoch_float_nd",
                  "tuple_datetime")
 
 META = dict(
-    rule="for each of the 11 tests (1-2 parameter sets): every logical series of length 0..N over {1, 3, missing} (other "
-         "inputs from a fixed menu) is run with the canonical carriers (float64 ndarray, datetime64[ns]) and with every "
-         "other carrier of ONE input at a time (17 data/aux carriers: lists/tuples with None/NaN, f4/i4/i8 ndarrays, "
-         "non-contiguous view, masked arrays with NaN and with adversarial data under the mask, pandas Series with "
+    rule="for each of the 11 tests (1-2 parameter sets): every logical series of length 0..N over {1, 3, missing} (range tests additionally over the float32 roundings of non-dyadic limits; rate_of_change "
+         "additionally on 1.5 s and 2.25 s sampling with fractional epoch seconds; other inputs from a fixed menu) is run with the canonical carriers (float64 ndarray, datetime64[ns]) and with every "
+         "other carrier of ONE input at a time (18 data/aux carriers: lists/tuples with None/NaN, f4/i4/i8 ndarrays, "
+         "non-contiguous view, masked arrays with NaN and with adversarial data under the mask, integer masked arrays, pandas Series with "
          "default/shifted index, dask; 17 time carriers: datetime64 ns/us/ms/s, lists/tuples of datetime/Timestamp/"
          "datetime64, DatetimeIndex and Series naive/UTC-aware, epoch seconds int/float list/ndarray; spans as "
          "list/tuple) plus every (data carrier x time carrier) pair for N<=2; the flags must equal the canonical ones "
@@ -35,17 +35,20 @@ META = dict(
     bounds={"quick": {"max_len": 3}, "thorough": {"max_len": 4}},
     not_judged=["epoch seconds inside a pandas Series (statement lists Series under datetimes)",
                 "time-valued data for valid_range_test (the statement's time carriers are about the time input)",
-                "integer carriers when the series has a missing value"],
+                "integer carriers when the series has a missing value",
+                "valid_range_test with limits that are not exact in the data's own dtype (its docstring: the span is taken in the format of the data, 'without type conversion')"],
     assumptions=["logical values 1 and 3 are exact in every real dtype used"],
 )
 
 TESTS = {
-    "gross_range_test": [dict(fail_span=[0, 3.5], suspect_span=[2, 3.5])],
+    "gross_range_test": [dict(fail_span=[0, 3.5], suspect_span=[2, 3.5]),
+                         # non-dyadic limits with values equal to their float32 roundings
+                         dict(fail_span=[-1, 5.3], suspect_span=[-0.9, 0.1], _alphabet="f32")],
     "valid_range_test": [dict(valid_span=[1, 3]), dict(valid_span=[None, 3], end_inclusive=True)],
     "climatology_test": [dict(config=[dict(tspan=[1, 1], period="month", vspan=[0, 2], zspan=[0, 7]),
                                       dict(tspan=["2020-01-01T00:01:00", "2020-01-01T00:02:00"], vspan=[2, 5])])],
     "spike_test": [dict(suspect_threshold=0.5, fail_threshold=1.5)],
-    "rate_of_change_test": [dict(threshold=0.02)],
+    "rate_of_change_test": [dict(threshold=0.02), dict(threshold=1.5, _step=1.5), dict(threshold=0.9, _step=2.25)],
     "flat_line_test": [dict(suspect_threshold=60, fail_threshold=120, tolerance=1)],
     "attenuated_signal_test": [dict(suspect_threshold=1.2, fail_threshold=0.4), dict(suspect_threshold=1.2, fail_threshold=0.4, test_period=120, check_type="range")],
     "density_inversion_test": [dict(suspect_threshold=0.5, fail_threshold=-1)],
@@ -81,13 +84,17 @@ def mk_data(vals, c):
     if c == "nd_f4":
         return np.array(f, dtype="f4")
     if c in ("nd_i4", "nd_i8"):
-        if has_missing:
+        if has_missing or any(float(v) != int(v) for v in vals):
             return None
         return np.array(f).astype(c[3:])
     if c == "ma_nan":
         return np.ma.MaskedArray(np.array(f), mask=[v == MISS for v in vals])
     if c == "ma_adv":
         return np.ma.MaskedArray(np.array([999.0 if v == MISS else float(v) for v in vals]), mask=[v == MISS for v in vals])
+    if c == "ma_i8":  # integer masked array (missing = masked, any integer underneath)
+        if any(v != MISS and float(v) != int(v) for v in vals):
+            return None
+        return np.ma.MaskedArray(np.array([7 if v == MISS else int(v) for v in vals], dtype="int64"), mask=[v == MISS for v in vals])
     if c == "ma_nomask":
         return np.ma.MaskedArray(np.array(f))
     if c == "series":
@@ -106,10 +113,13 @@ def mk_data(vals, c):
 def mk_time(secs, c):
     import pandas as pd
 
-    base = np.array(secs, dtype="int64").astype("datetime64[s]")
+    frac = any(float(s) != int(s) for s in secs)
+    if frac and c in ("dt64s", "list_dt64", "epoch_int_list", "epoch_int_nd"):
+        return None  # the carrier cannot hold fractional seconds
+    base = np.array([int(round(float(s) * 1000)) for s in secs], dtype="int64").astype("datetime64[ms]")
     if c.startswith("dt64"):
         return base.astype(f"datetime64[{c[4:]}]")
-    pyd = [dt.datetime(1970, 1, 1) + dt.timedelta(seconds=int(s)) for s in secs]
+    pyd = [dt.datetime(1970, 1, 1) + dt.timedelta(milliseconds=int(round(float(s) * 1000))) for s in secs]
     if c == "list_datetime":
         return pyd
     if c == "tuple_datetime":
@@ -117,7 +127,7 @@ def mk_time(secs, c):
     if c == "list_timestamp":
         return [pd.Timestamp(d) for d in pyd]
     if c == "list_dt64":
-        return [np.datetime64(d, "s") for d in pyd]
+        return [np.datetime64(d, "s") for d in pyd]  # whole seconds only (guarded above)
     if c == "dtindex":
         return pd.DatetimeIndex(base.astype("datetime64[ns]"))
     if c == "dtindex_utc":
@@ -139,7 +149,7 @@ def mk_time(secs, c):
     raise KeyError(c)
 
 
-def logical_inputs(name, x):
+def logical_inputs(name, x, step=None):
     """x: logical series (floats / MISS) -> dict axis -> logical values."""
     n = len(x)
     spec = G.SPECS[name]
@@ -152,7 +162,7 @@ def logical_inputs(name, x):
     if "z" in spec["needs"]:
         d["zinp"] = [5.0 if i % 2 == 0 else (MISS if n > 2 and i == 1 else 6.0) for i in range(n)]
     if "t" in spec["needs"]:
-        d["tinp"] = alpha.regular_secs(n)
+        d["tinp"] = alpha.regular_secs(n) if step is None else [alpha.T0 + step * i for i in range(n)]
     if name == "pressure_increasing_test":
         d["inp"] = [v for v in x]
     return d
@@ -164,13 +174,16 @@ def call_with(name, cfg, logical, carriers, span_tuple=False):
     if span_tuple:
         c["_tuple"] = True
     kw = G.build_cfg(name, c)
-    int_none = name == "valid_range_test" and None in (cfg.get("valid_span") or []) and any(str(c).startswith("nd_i") for c in carriers.values())
+    int_none = name == "valid_range_test" and None in (cfg.get("valid_span") or []) and any(str(c).startswith("nd_i") or c == "ma_i8" for c in carriers.values())
     if int_none:
         return None  # integer data with a None bound: numpy cannot build the span array (not judged)
     for axis, vals in logical.items():
         car = carriers.get(axis)
         if axis == "tinp":
-            kw[axis] = mk_time(vals, car or "dt64ns")
+            v = mk_time(vals, car or "dt64ns")
+            if v is None:
+                return None
+            kw[axis] = v
         else:
             v = mk_data(vals, car or "nd_f8")
             if v is None:
@@ -185,7 +198,7 @@ def call_with(name, cfg, logical, carriers, span_tuple=False):
 
 def check_case(case):
     name, cfg, x = case["fn"], case["cfg"], case["x"]
-    logical = logical_inputs(name, x)
+    logical = logical_inputs(name, x, cfg.get("_step"))
     canon = call_with(name, cfg, logical, {})
     res = call_with(name, cfg, logical, case["carriers"], case.get("span_tuple", False))
     if res is None:
@@ -219,6 +232,8 @@ def run_task(task, acc):
     cfg = TESTS[name][ci]
     spec = G.SPECS[name]
     alphabet = (1.0, 3.0, MISS) if name != "pressure_increasing_test" else (1.0, 3.0, 2.0)
+    if cfg.get("_alphabet") == "f32":
+        alphabet = tuple(float(np.float32(v)) for v in (0.1, -0.9, 5.3)) + (MISS,)
     data_axes = [a for a in ("inp", "lon", "lat", "zinp") if a in logical_inputs(name, [1.0])]
     has_t = "t" in spec["needs"]
 
